@@ -216,6 +216,100 @@ func counts(r *security.ScanResult) string {
 
 var allAPIs = apis()
 
+// enumerateScripts: a payload in a statement of a script is a position like any other.  Every ordered script of 2 and 3
+// statements over the payload statements (each payload as the WHERE condition of a SELECT, an UPDATE and a DELETE) and two
+// clean statements: counts equal the findings listed (every API, every threshold), and for the tree scanner the findings of
+// the script are exactly the findings of its statements scanned one by one.
+func enumerateScripts(e *common.Enum) {
+	var stmts []string
+	names := map[string]string{}
+	add := func(name string, st sqlgen.S) {
+		sql := st.SQL()
+		if _, ok := names[sql]; !ok {
+			names[sql] = name
+			stmts = append(stmts, sql)
+		}
+	}
+	xp := func(v sqlgen.X) *sqlgen.X { return &v }
+	add("clean-select", sqlgen.Sel{Items: []sqlgen.SelItem{{X: sqlgen.Col("c1")}}, From: []sqlgen.TableRef{{Name: "t1"}}, Where: xp(sqlgen.Bin("=", sqlgen.Col("c1"), sqlgen.Int("7")))}.Build())
+	add("clean-insert", sqlgen.Ins{Table: "t1", Cols: []string{"c1"}, Rows: [][]sqlgen.X{{sqlgen.Int("1")}}}.Build())
+	for _, p := range payloads()[:12] {
+		x := p.x()
+		if !p.cond {
+			x = sqlgen.Bin("=", sqlgen.Col("c9"), x)
+		}
+		add("select:"+p.name, sqlgen.Sel{Items: []sqlgen.SelItem{{X: sqlgen.Col("c1")}}, From: []sqlgen.TableRef{{Name: "t1"}}, Where: xp(x)}.Build())
+		add("delete:"+p.name, sqlgen.Del{Table: "t1", Where: xp(x)}.Build())
+	}
+	run := func(script []string) {
+		text := strings.Join(script, "; ")
+		var ns []string
+		for _, s := range script {
+			ns = append(ns, names[s])
+		}
+		e.Do("script|"+text, func(c *common.Ctx) {
+			c.Input(text)
+			for _, a := range allAPIs {
+				for _, min := range thresholds {
+					ks, r, err, pan := safeScan(a, text, min)
+					if pan != "" {
+						c.Fail("panic:"+a.name, pan)
+						return
+					}
+					if err != nil {
+						if err.Error() == "scan-modified-tree" {
+							c.Fail("scan-modified-tree:"+a.name+":script", "the scan changed the tree of a script")
+						}
+						continue
+					}
+					if r != nil {
+						if msg := counts(r); msg != "" {
+							c.Fail("counts-mismatch:"+a.name+":script", fmt.Sprintf("threshold %s, script of %d statements (%s): %s", min, len(script), strings.Join(ns, "; "), msg))
+							return
+						}
+					}
+					if a.name != "tree" {
+						continue
+					}
+					var sum []key
+					ok := true
+					for _, s := range script {
+						k1, _, e1, p1 := safeScan(a, s, min)
+						if e1 != nil || p1 != "" {
+							ok = false
+							break
+						}
+						sum = append(sum, k1...)
+					}
+					if ok && show(multiset(ks)) != show(multiset(sum)) {
+						c.Fail("script-not-compositional:tree", fmt.Sprintf("threshold %s: the script (%s) gives %s, its statements one by one give %s", min, strings.Join(ns, "; "), show(multiset(ks)), show(multiset(sum))))
+						return
+					}
+				}
+			}
+			c.Outcome("script")
+			c.NonTrivial()
+		})
+	}
+	for _, a := range stmts {
+		for _, b := range stmts {
+			run([]string{a, b})
+		}
+	}
+	// three statements: a reduced set (two clean, the first four payload statements)
+	small := stmts
+	if len(small) > 6 {
+		small = small[:6]
+	}
+	for _, a := range small {
+		for _, b := range small {
+			for _, c3 := range small {
+				run([]string{a, b, c3})
+			}
+		}
+	}
+}
+
 // enumerateUnion covers the statement-level payloads: UNION probing with NULL columns and with system tables.
 // The canonical position is the right operand of a top-level 'SELECT c1 FROM t1 UNION <probe>'; the other positions
 // put the same set operation wherever a query can stand.  Letter case of the table name, of NULL and of the keywords,
@@ -433,7 +527,7 @@ func Check() *common.Check {
 		Level: "exploration",
 		// every case is recorded before it runs: a fatal error or a hang of the worker is attributed to it
 		CrashSafe: true,
-		Rule: "18 payloads built from the documented ones (4 tautologies, 3 time-delay calls, 3 dangerous calls, 4 other spellings of those names, 4 nestings of one call inside the arguments of another) x every expression hole of the model grammar (condition payloads only in the 17 condition holes, each also as operand of AND / OR / NOT and inside redundant parentheses; call payloads in all 49 holes) " +
+		Rule: "scripts: every ordered script of 2 statements over 26 statements (two clean ones, 12 payloads as the WHERE condition of a SELECT and of a DELETE) and of 3 statements over six of them - counts equal the findings listed for every API and threshold, and the tree scanner reports for a script exactly what it reports for its statements one by one; 18 payloads built from the documented ones (4 tautologies, 3 time-delay calls, 3 dangerous calls, 4 other spellings of those names, 4 nestings of one call inside the arguments of another) x every expression hole of the model grammar (condition payloads only in the 17 condition holes, each also as operand of AND / OR / NOT and inside redundant parentheses; call payloads in all 49 holes) " +
 			"x 3 layouts (natural, one space everywhere, one lexeme per line with lower-case keywords and CRLF) x 4 severity thresholds x 3 scanner APIs (tree Scan, ScanSQL, the CLI text scanner); thorough adds every payload inside a second level of nesting (hole in hole). " +
 			"UNION probes (2/3/5 NULL columns; 9 system tables; 6 arms mixing NULLs with columns and call payloads) x UNION / UNION ALL x 8 hosts (top level, end of a chain, IN / EXISTS sub-query, CTE body, INSERT..SELECT, CREATE VIEW, second statement) x 3 spellings of the names (lower, upper, mixed) x 3 layouts x 4 thresholds x 3 APIs. " +
 			"Per API the canonical answer is that API's answer for 'SELECT c0 FROM t0 WHERE <payload>'. distinct = distinct (payload, position, wrapper); non-trivial = the tree API reports the payload in the canonical position",
@@ -512,6 +606,7 @@ func Check() *common.Check {
 				}
 			}
 			enumerateUnion(e)
+			enumerateScripts(e)
 			canonical := func(p payload) sqlgen.S {
 				return sqlgen.Sel{Items: []sqlgen.SelItem{{X: sqlgen.Col("c0")}}, From: []sqlgen.TableRef{{Name: "t0"}}, Where: func() *sqlgen.X { v := p.x(); return &v }()}.Build()
 			}
